@@ -946,13 +946,19 @@ func (p *Parser) Parse() (Statement, error) {
 		}
 	}
 
+	// The fields come first: the where expression may refer to a field that is
+	// defined through another field, whose type is known once its names are resolved
+	fieldsErr := selectStmt.ValidateFields(checkCtx)
+
 	// Check syntax
-	err = expr.Check(checkCtx)
-	if err != nil {
-		return nil, err
-	}
-	if expr.ReturnType() != TBOOL {
-		return nil, NewSyntaxError(expr.GetPos(), "where statement result type should be boolean")
+	if fieldsErr == nil {
+		err = expr.Check(checkCtx)
+		if err != nil {
+			return nil, err
+		}
+		if expr.ReturnType() != TBOOL {
+			return nil, NewSyntaxError(expr.GetPos(), "where statement result type should be boolean")
+		}
 	}
 	whereStmt := &WhereStmt{
 		Pos:  wherePos,
@@ -962,6 +968,5 @@ func (p *Parser) Parse() (Statement, error) {
 	selectStmt.Limit = limitStmt
 	selectStmt.Order = orderStmt
 	selectStmt.GroupBy = groupByStmt
-	err = selectStmt.ValidateFields(checkCtx)
-	return selectStmt, err
+	return selectStmt, fieldsErr
 }
